@@ -293,6 +293,16 @@ func rewardMutants(net *chainkit.Net, own []byte, table, stale map[string]uint64
 		p[first].Amount++
 		p[first+1].Amount--
 		ms = append(ms, mutant{"one-unit-moved", p})
+		// one entry paid twice in place of another: the count and every single amount match the table
+		for _, ij := range [][2]int{{first, first + 1}, {first + 1, first}} {
+			p = clonePays(base)
+			p[ij[1]].Prog, p[ij[1]].Amount = p[ij[0]].Prog, p[ij[0]].Amount
+			ms = append(ms, mutant{"entry-paid-twice-another-missing", p})
+		}
+	}
+	if len(base)-first >= 1 && base[len(base)-1].Amount > 0 {
+		// every entry paid, one of them twice
+		ms = append(ms, mutant{"entry-paid-twice", append(clonePays(base), base[len(base)-1])})
 	}
 	if len(stale) > 0 && !sameTable(stale, table) {
 		ms = append(ms, mutant{"stale-table", exactPays(own, stale)})
@@ -885,6 +895,7 @@ func (w *world) step(p *chainkit.Blk, side bool, otherBranch map[string]uint64) 
 			return nil, false
 		}
 		if split {
+			c.Count("split_payment_same_program_tried", 1)
 			if perr == nil {
 				c.Count("split_payment_same_program_accepted", 1)
 			} else {
@@ -1088,7 +1099,7 @@ func TestC14(t *testing.T) {
 	r.Floor("template_off-epoch-block_exact", 20)
 	r.Floor("template_paying_nonempty_table", 8)
 	r.Floor("template_blocks_with_fees", 10)
-	r.Floor("split_payment_same_program_accepted", 1)
+	r.Floor("split_payment_same_program_tried", 1) // accepted or refused: both pay the table exactly, the property does not choose
 	r.Floor("reward_blocks_with_1_recipients", 5)
 	r.Floor("reward_blocks_with_2_recipients", 5)
 	r.Floor("reward_blocks_with_3_recipients", 5)
